@@ -44,7 +44,7 @@ def bad_escape(s):
         return True
     for m in _esc_seq.finditer(s):
         v = int(m.group(1)[1:], 16)
-        if v == 0 or v > 0x10ffff or 0xd800 <= v <= 0xdfff:
+        if v > 0x10ffff or 0xd800 <= v <= 0xdfff:      # (an escaped NUL is accepted by the reference parser)
             return True
     return False
 
